@@ -1,15 +1,14 @@
 SPECIFICATION Spec
 CONSTANTS
-  Programs <- AllPrograms
-  QuerySeqs <- QS3
-  Permute = FALSE
+  Programs <- FamilyNegLoop
+  QuerySeqs <- QS2
+  Permute = TRUE
   CheckOnTableHit = FALSE
   RepairFalseResult = FALSE
 VIEW view
 INVARIANT NoDanglingMessages
 INVARIANT NoError
 INVARIANT NegCycleOnlyWhenCyclic
-INVARIANT StackEmpty
+INVARIANT AnsweredOnlyWhenDefined
 INVARIANT TableSound
-INVARIANT ResultCorrect
 CHECK_DEADLOCK FALSE
